@@ -40,6 +40,15 @@ PROPS = {
         "assumptions": ["FetchURL semantics are those of the jtp model (C03), composed into the world by the driver"],
         "shrink_budget": 3,
     },
+    "C06": {
+        "groups": [{"name": "C06", "quick": 1500, "thorough": 40000, "workers": 12}, {"name": "renderdeep", "quick": 240, "thorough": 6000, "workers": 12},
+                   {"name": "render", "quick": 800, "thorough": 20000}],
+        "rule": "JSON objects with the ActivityStreams keys filled with right- and wrong-typed values (types from all kinds incl. Tombstone/bogus, markup bodies in the four media types incl. 10..70 nested blockquotes, huge/negative/fractional numbers, malformed URLs and timestamps, embedded parents up to depth 3, collections with bogus entries, dead references to a closed port), built as post/actor/activity/any and then every Tangible method called at widths -50..300 and link numbers 0, +-1, 2^31, +-2^63; deep nesting of every block/inline tag to depth 5..65 at widths -1..80; "
+                "a panic or a timeout (10 s) of the real code is an output; non-trivial = at least three strings were produced; distinct by op content",
+        "trusted": ["x/net/html, goldmark (time and memory of the external parsers are observed, not proved)", "the Go runtime (wall-clock, memory)"],
+        "assumptions": ["pubfuzz ops are predicate-only: the item-level String/Preview are not recomputed by the model; their building blocks (renderers, style, ansi, selection) are modelled and proved"],
+        "shrink_budget": 3,
+    },
     "C09": {
         "groups": [{"name": "C02", "quick": 1200, "thorough": 40000, "workers": 12}],
         "rule": "the same multi-host worlds as C02 (outboxes and reply collections mixing legitimate entries with other-actor activities, other-parent comments, foreign-host authors, missing ids/actors/reply targets, embedded vs referenced, failing fetches); "
@@ -180,6 +189,12 @@ MANIFEST_TEXT = {
         "design_ref": "DESIGN.md §5 C02",
         "note": "Trusted: Lean kernel; correspondence check (testing); net/url host parsing as a parameter; TLS.",
         "technique": "Lean 4 proof (provenance invariant through FetchUnknown and the constructors) + differential correspondence over multi-host simulator worlds",
+    },
+    "C06": {
+        "text": "Lean theorems for every panic site the rendering path has: the <hr> repeat count is never negative after the guard (and strings.Repeat is shown to panic exactly on negative counts, so the site is real), link selection is total and returns nothing below 1, SetLength/Snip/ReplaceLastLine succeed under the conditions their callers establish, paging terminates on every chain (C10) and Current() is defined (C18); all other modelled functions are total by construction. Tied to the code by running every Tangible method of items built from generated hostile JSON and deep markup under recover, a 10 s watchdog and a memory limit, plus the renderer correspondence. Partial: wall-clock and memory are observed.",
+        "design_ref": "DESIGN.md §5 C06",
+        "note": "Trusted: Lean kernel; correspondence/fuzzing (testing); external parsers; Go runtime. Known finding: cubic render time under very deep block nesting.",
+        "technique": "Lean 4 proof (panic-site theorems over Except-valued model functions) + differential correspondence and crash/hang observation under recover and watchdog",
     },
     "C09": {
         "text": "Lean theorems: an outbox element is delivered as an activity iff construction succeeded, the owner has an id and the activity's resolved actor id equals it; a reply element is delivered as a post iff its resolved inReplyTo id equals the post's id; a post is built only if every resolved author shares its host; listings keep one entry per element in order, failures in place. Tied to pub by differential correspondence on listings over multi-host worlds with impostors; genuineness predicates are evaluated on every implementation output.",
